@@ -275,6 +275,7 @@ Lemma header_loop_not_fatal eh d n b fs d' n' carry :
   let r := header_loop dec_field fuel cfg eh d h b in
   snd (fst r) = None \/ exists code, snd (fst r) = Some (EReset code).
 Proof.
+  clear dec_shrinks.
   induction 1 as [d n|d n b d' Hb E|d n b d' Hb He E|d n b k v rest dm fs d' n' carry Hb E H IH];
     intros [|fuel] h Hn Hf OV; try (cbn [length] in Hf; lia); cbn [header_loop]; cbv zeta.
   - left. reflexivity.
@@ -282,10 +283,12 @@ Proof.
   - destruct b; [congruence|]. rewrite Hn, E, He. left. reflexivity.
   - destruct b; [congruence|]. rewrite Hn, E. cbn [fields_size] in OV.
     destruct (header_field cfg h k v) as [e|h1] eqn:HF.
-    + cbn [fst snd]. destruct (header_field_err _ cfg _ _ _ _ HF) as [F|[code ->]]; [|right; eexists; reflexivity].
+    + cbn [fst snd]. destruct (header_field_err cfg _ _ _ _ HF) as [F|[code ->]]; [|right; eexists; reflexivity].
       exfalso. destruct e as [code|code|]; cbn [fatal_err] in F; [|destruct F|].
       * apply header_field_goaway_iff in HF. destruct HF as [_ HF].
-        pose proof (fields_size_nonneg fs). rewrite (over_mono _ _ _ OV) in HF; [discriminate | lia].
+        pose proof (fields_size_nonneg fs) as NN.
+        assert (OK : over_header_list_limit (hd_headerListSize h + field_size k v) = false) by (eapply over_mono; [|exact OV]; lia).
+        congruence.
       * unfold header_field in HF.
         repeat match type of HF with
                | context [if ?b then _ else _] => destruct b
@@ -295,6 +298,90 @@ Proof.
       * destruct (header_field_inr cfg _ _ _ _ HF) as (_ & B & _). lia.
       * cbn [length] in Hf. lia.
       * rewrite (header_field_size _ _ _ _ HF). rewrite <- OV. f_equal. lia.
+Qed.
+
+Lemma ref_run_split d n b fs1 d1 n1 rest : ref_pre dec_field d n b fs1 d1 n1 rest ->
+  forall eh fs d' n' carry, ref_run dec_field eh d n b fs d' n' carry ->
+  exists fs2, fs = fs1 ++ fs2 /\ ref_run dec_field eh d1 n1 rest fs2 d' n' carry.
+Proof.
+  clear dec_shrinks.
+  induction 1 as [|d n b k v rest0 dm fs1 d1 n1 rest' Hb E H IH]; intros eh fs d' n' carry R; [exists fs; auto|].
+  inversion R as [d0 n0|d0 n0 b0 d0' Hb0 E0|d0 n0 b0 d0' Hb0 He0 E0|d0 n0 b0 k0 v0 rest1 dm0 fs0 d0' n0' carry0 Hb0 E0 R0]; subst; try congruence.
+  rewrite E in E0. inversion E0; subst. destruct (IH _ _ _ _ _ R0) as (fs2 & -> & R2). exists fs2. auto.
+Qed.
+
+(* ... and the frame: a HEADERS / CONTINUATION frame that is acceptable in its stream's state and whose fragment
+   decodes, with the header list and the carried bytes within the limit, never gives a connection error *)
+Theorem header_frame_not_fatal (c : sconn hstate) s fr fs d' n' carry' :
+  is_hdr_kind (sf_kind fr) = true -> verify_state s fr = None -> rank_ok s fr -> trailer_ok s fr ->
+  (fkind_eqb (sf_kind fr) KHeaders && (sf_dep fr =? st_id s))%bool = false ->
+  ref_run dec_field (eh_of fr) (sc_dec c) (hn0 s fr) (hb0 s fr) fs d' n' carry' ->
+  over_header_list_limit (st_headerListSize s + fields_size fs) = false ->
+  over_header_list_limit (Z.of_N (len carry')) = false ->
+  snd (handle_frame dec_field cfg c s fr) = None \/ exists code, snd (handle_frame dec_field cfg c s fr) = Some (EReset code).
+Proof using dec_shrinks.
+  intros HK V [RK _] TO DEP R OV OC.
+  assert (HH : snd (handle_header_frame dec_field cfg c s fr) = None \/ exists code, snd (handle_header_frame dec_field cfg c s fr) = Some (EReset code)).
+  { unfold handle_header_frame. unfold trailer_ok in TO. rewrite TO, DEP. cbv zeta.
+    fold (hh1 s fr). change (hd_prev (get_hdr s) ++ sf_payload fr) with (hb0 s fr). change (flag_has (sf_flags fr) FL_EH) with (eh_of fr).
+    pose proof (ref_run_len _ _ _ _ _ _ _ _ R) as LEN.
+    pose proof (header_loop_not_fatal _ _ _ _ _ _ _ _ R (S (length (hb0 s fr))) (hh1 s fr) (hh1_bf s fr)) as NF.
+    cbv zeta in NF.
+    destruct (header_loop dec_field (S (length (hb0 s fr))) cfg (eh_of fr) (sc_dec c) (hh1 s fr) (hb0 s fr)) as [[[d1 h2] e0] rest] eqn:HL.
+    cbn [fst snd] in NF. specialize (NF ltac:(lia) OV).
+    pose proof (header_loop_ref _ dec_field cfg _ _ _ _ _ _ _ _ _ HL) as SP. unfold header_loop_spec in SP.
+    destruct NF as [->|[code ->]].
+    - destruct SP as (fs' & hF & carry'' & R' & HF & -> & _). rewrite hh1_bf in R'.
+      destruct (ref_run_det _ dec_field _ _ _ _ _ _ _ _ _ _ _ _ R R') as (_ & _ & _ & <-).
+      destruct (hfold_frame cfg _ _ _ HF) as (PV & _ & _). cbn [hh1 hd_prev] in PV.
+      cbn [hd_set_prev hd_prev]. rewrite PV. cbn [app]. unfold over_header_list_limit in OC. rewrite OC. left. reflexivity.
+    - destruct SP as [(fs1 & k & v & RP & HF & FE)|[_ []]]. rewrite hh1_bf in RP.
+      destruct (ref_run_split _ _ _ _ _ _ _ RP _ _ _ _ _ R) as (fs2 & _ & R2).
+      pose proof (ref_run_len _ _ _ _ _ _ _ _ R2) as LEN2.
+      unfold discard_fragment. sc_cbn. cbn [app].
+      rewrite (discard_loop_complete _ dec_field _ _ _ _ _ _ _ _ R2 (S (length rest))) by lia.
+      destruct (eh_of fr); cbn [fst snd]; [right; eexists; reflexivity|].
+      unfold over_header_list_limit in OC. rewrite OC. cbn [fst snd]. right. eexists. reflexivity. }
+  unfold handle_frame. rewrite V. rewrite RK.
+  assert (G : snd (let '(c1, s1, e) := handle_header_frame dec_field cfg c s fr in
+        match e with
+        | Some e => (c1, s1, Some e)
+        | None =>
+          if flag_has (sf_flags fr) FL_EH then
+            let fin := match st_prev s1 with [] => true | _ => false end in
+            let s2 := set_headers_finished s1 fin in
+            if negb fin then (c1, s2, Some (EGoAway c_ProtocolError))
+            else
+              match validate_request_pseudo_headers s2 with
+              | Some e => (c1, s2, Some e)
+              | None => (c1, s2, None)
+              end
+          else (c1, s1, None)
+        end) = None \/ exists code, snd (let '(c1, s1, e) := handle_header_frame dec_field cfg c s fr in
+        match e with
+        | Some e => (c1, s1, Some e)
+        | None =>
+          if flag_has (sf_flags fr) FL_EH then
+            let fin := match st_prev s1 with [] => true | _ => false end in
+            let s2 := set_headers_finished s1 fin in
+            if negb fin then (c1, s2, Some (EGoAway c_ProtocolError))
+            else
+              match validate_request_pseudo_headers s2 with
+              | Some e => (c1, s2, Some e)
+              | None => (c1, s2, None)
+              end
+          else (c1, s1, None)
+        end) = Some (EReset code)).
+  { pose proof (handle_header_frame_spec _ dec_field cfg c s fr) as HS.
+    destruct (handle_header_frame dec_field cfg c s fr) as [[c1 s1] e]. cbn [fst snd] in *.
+    destruct HH as [->|[code ->]]; [|right; eexists; reflexivity].
+    inversion HS as [| fs' hF d1 n1 carry1 TO' R' HF|]; subst.
+    fold (eh_of fr). destruct (eh_of fr) eqn:EH; [|left; reflexivity].
+    pose proof (ref_run_eh_carry _ _ _ _ _ _ _ _ _ R') as ->.
+    cbn [set_hdr st_prev hd_set_prev hd_prev negb]. cbv zeta.
+    destruct (validate_request_pseudo_headers _) as [e|] eqn:VR; [|left; reflexivity].
+    apply validate_err in VR. subst e. right. eexists. reflexivity. }
+  unfold is_hdr_kind in HK. destruct (sf_kind fr); try discriminate HK; exact G.
 Qed.
 
 End Limit.
